@@ -122,7 +122,12 @@ pub fn run(tier: &str) -> i32 {
     let thorough = rep.thorough();
     let ins = inputs(thorough);
     let include_paths: Vec<String> = {
-        let mut v = vec!["shader.wgsl".to_string(), "../shaders/my shader.wgsl".to_string(), "C:\\dir\\s.wgsl".to_string()];
+        // ordinary paths, boundary values of the path domain (empty, blank, dot, separators only, very long), and
+        // every escaping-relevant character alone and inside a name
+        let mut v = vec!["shader.wgsl".to_string(), "../shaders/my shader.wgsl".to_string(), "C:\\dir\\s.wgsl".to_string(), String::new(), " ".to_string(), ".".to_string(), "/".to_string(), "\\".to_string(), "\n".to_string(), format!("{}/deep.wgsl", "d".repeat(5000))];
+        for p in payloads(false).into_iter().filter(|p| p.chars().count() == 1) {
+            v.push(p);
+        }
         for p in payloads(false).into_iter().filter(|p| !p.is_empty()) {
             if p.chars().count() == 1 || thorough {
                 v.push(format!("a{p}b.wgsl"));
